@@ -11,7 +11,7 @@ THEOREMS = ["Mpir.Sieve.sieve_index_maps", "Mpir.Sieve.gmp_primesieve_spec", "Mp
             "Mpir.Numth.kummer_borrow_chain", "Mpir.Numth.goetgheluck_prime_ranges", "Mpir.Numth.goetgheluck_bin_uiui_spec",
             "Mpir.Numth.bin_uiui_goetgheluck_spec", "Mpir.Numth.primorial_ui_spec",
             "Mpir.Sieve.npc_residue_invariant", "Mpir.Sieve.npc_small_path_spec", "Mpir.Sieve.npc_candidate_spec",
-            "Mpir.Sieve.nextprime_spec_given_exact_tests", "Mpir.Sieve.sieve_users_on_real_sieve"]
+            "Mpir.Sieve.nextprimeLoop_spec", "Mpir.Sieve.nextprime_no_prime_skipped", "Mpir.Sieve.sieve_users_on_real_sieve"]
 TRUSTED = ["hand-written limb-level model lean/Mpir/Model/Sieve.lean of primesieve.c (tied by the ops gmp_primesieve / first_block_primesieve / "
            "block_resieve: whole bit array and count compared; the two static functions are reached by compiling the tree's primesieve.c "
            "into harness/ops_sieve.c under other names, and that copy is compared with the library object on every gmp_primesieve op)"]
@@ -253,4 +253,4 @@ PINS = [("primesieve.c", None), ("mpz/oddfac_1.c", "mpz_2multiswing_1"), ("mpz/o
         ("mpz/oddfac_1.c", "limb_apprsqrt"), ("mpz/oddfac_1.c", "LOOP_ON_SIEVE_BEGIN"), ("mpz/oddfac_1.c", "LOOP_ON_SIEVE_CONTINUE"),
         ("mpz/oddfac_1.c", "LOOP_ON_SIEVE_STOP"), ("mpz/oddfac_1.c", "FACTOR_LIST_STORE"), ("mpz/oddfac_1.c", "FACTOR_LIST_APPEND"),
         ("mpz/bin_uiui.c", "mpz_goetgheluck_bin_uiui"), ("mpz/bin_uiui.c", "COUNT_A_PRIME"), ("mpz/bin_uiui.c", "SH_COUNT_A_PRIME"),
-        ("mpz/bin_uiui.c", "mpz_bin_uiui"), ("mpz/primorial_ui.c", "mpz_primorial_ui"), ("mpz/next_prime_candidate.c", None)]
+        ("mpz/bin_uiui.c", "mpz_bin_uiui"), ("mpz/primorial_ui.c", "mpz_primorial_ui"), ("mpz/next_prime_candidate.c", None), ("mpz/nextprime.c", None)]
